@@ -85,6 +85,7 @@ def run_case(seed, tier, rec, st):
     from mashumaro.jsonschema.models import JSONSchema
     rng = random.Random(seed)
     fam = Family("c20", future_annotations=rng.random() < 0.1)
+    other = None
     try:
         fam.exec_src(ANN_IMPORT)
         tg = TypeGen(fam, rng, dc_config_fn=config_fn, allow_pattern=False, mixins=("DataClassDictMixin", "DataClassORJSONMixin"))
@@ -119,6 +120,30 @@ def run_case(seed, tier, rec, st):
                          "class Undecorated(Decorated):\n    extra: int = 5\n    label: str = 'x'\n"
                          "@dataclass\nclass Holder:\n    u: Undecorated\n    w: List[WithPlainBase] = field(default_factory=list)\n")
             types_ = [("raw", "WithPlainBase"), ("raw", "Undecorated"), ("raw", "Holder")]
+        elif kind < 0.21:
+            facts = {"kind": "cross-module-namedtuple-pep563"}
+            other = Family("c20fut", future_annotations=True)
+            other.exec_src("class Color(enum.Enum):\n    red = 'red'\n"
+                           "class OnlyThere(enum.Enum):\n    k = 'k'\n"
+                           "class Point(NamedTuple):\n    x: int\n    c: Color\n    d: datetime.date = datetime.date(2000, 1, 1)\n    o: OnlyThere = OnlyThere.k\n"
+                           "class TDx(TypedDict):\n    c: Color\n    o: OnlyThere\n")
+            fam.module.other = other.module
+            fam.exec_src("class Color(enum.Enum):\n    a = 1\n"
+                         "@dataclass\nclass Fig:\n    p: other.Point\n    ps: List[other.Point] = field(default_factory=list)\n    op: Optional[other.Point] = None\n    td: Optional[other.TDx] = None\n")
+            types_ = [("raw", "Fig"), ("raw", "other.Point"), ("raw", "List[Fig]")]
+        elif kind < 0.25:
+            # a class-wide strategy whose serialize returns the type it is registered for (normalisation): nothing to
+            # re-type, however the field spells the type
+            facts = {"kind": "strategy-returns-own-type"}
+            fam.exec_src("def norm_str(v: str) -> str:\n    return v.strip()\n"
+                         "def norm_dt(v: datetime.datetime) -> datetime.datetime:\n    return v.replace(microsecond=0)\n"
+                         "TS = TypeVar('TS')\n"
+                         "@dataclass\nclass GS(Generic[TS]):\n    g: TS\n    gs: List[TS] = field(default_factory=list)\n"
+                         "    class Config(BaseConfig):\n        serialization_strategy = {str: {'serialize': norm_str}, datetime.datetime: {'serialize': norm_dt}}\n"
+                         "@dataclass\nclass SR:\n    a: str\n    e: Annotated[datetime.datetime, 'when']\n    b: Annotated[str, 'doc'] = ''\n    c: Optional[str] = None\n    d: List[Annotated[str, 'x']] = field(default_factory=list)\n"
+                         "    f: GS[str] = field(default_factory=lambda: GS('x'))\n"
+                         "    class Config(BaseConfig):\n        serialization_strategy = {str: {'serialize': norm_str}, datetime.datetime: {'serialize': norm_dt}}\n")
+            types_ = [("raw", "SR"), ("raw", "GS[str]"), ("raw", "GS[datetime.datetime]")]
         elif kind < 0.3:
             ann = rng.choice(ANNOTATIONS)
             facts = {"kind": "annotated", "annotation": ann[1], "unhashable_metadata": ("{" in ann[1] or "[" in ann[1])}
@@ -265,3 +290,5 @@ def run_case(seed, tier, rec, st):
         rec.sample({"types": [t[1] if t[0] == "raw" else tast.render(t) for t in types_], "facts": facts})
     finally:
         fam.dispose()
+        if other:
+            other.dispose()
